@@ -124,46 +124,54 @@ end
 /-! ### the output lies in the domain of the functionalisation -/
 
 mutual
-theorem annotS_total : ∀ (s : Stmt) (a : Func.Ann), hasBrkS s = false → hasContS s = false → inS0S s = true →
-    ∃ q, Func.annotS a s = some q
-  | .assign x e, a, _, _, _ => ⟨_, rfl⟩
-  | .expr e, a, _, _, _ => ⟨_, rfl⟩
-  | .pass, a, _, _, _ => ⟨_, rfl⟩
-  | .ret e, a, _, _, _ => ⟨_, rfl⟩
-  | .raise t, a, _, _, _ => ⟨_, rfl⟩
-  | .brk, a, h, _, _ => by simp [hasBrkS] at h
-  | .cont, a, _, h, _ => by simp [hasContS] at h
-  | .tryS b hs f, a, _, _, h => by simp [inS0S] at h
-  | .withS t b, a, _, _, h => by simp [inS0S] at h
-  | .ifS c t e, a, hb, hc, hs => by
+/-- Bridge to `Func.noJumpB` ("no break/continue", try/with allowed). -/
+theorem noJumpS_of_has : ∀ (s : Stmt), hasBrkS s = false → hasContS s = false → Func.noJumpS s = true
+  | .assign x e, _, _ => by simp [Func.noJumpS]
+  | .expr e, _, _ => by simp [Func.noJumpS]
+  | .pass, _, _ => by simp [Func.noJumpS]
+  | .ret e, _, _ => by simp [Func.noJumpS]
+  | .raise t, _, _ => by simp [Func.noJumpS]
+  | .brk, h, _ => by simp [hasBrkS] at h
+  | .cont, _, h => by simp [hasContS] at h
+  | .ifS c t e, hb, hc => by
       simp only [hasBrkS, Bool.or_eq_false_iff] at hb
       simp only [hasContS, Bool.or_eq_false_iff] at hc
-      simp only [inS0S, Bool.and_eq_true] at hs
-      obtain ⟨t', ht⟩ := annotB_total t (fun p => a (0 :: p)) 0 hb.1 hc.1 hs.1
-      obtain ⟨e', he⟩ := annotB_total e (fun p => a (1 :: p)) 0 hb.2 hc.2 hs.2
-      exact ⟨.ifS (a []) c t' e', by simp only [Func.annotS, ht, he]⟩
-  | .whileS c b, a, hb, hc, hs => by
+      simp [Func.noJumpS, noJumpB_of_has t hb.1 hc.1, noJumpB_of_has e hb.2 hc.2]
+  | .whileS c b, hb, hc => by
       simp only [hasBrkS] at hb
       simp only [hasContS] at hc
-      simp only [inS0S] at hs
-      obtain ⟨b', hb'⟩ := annotB_total b (fun p => a (0 :: p)) 0 hb hc hs
-      exact ⟨.whileS (a []) c b', by simp only [Func.annotS, hb']⟩
-  | .forS x it ex b, a, hb, hc, hs => by
+      simp [Func.noJumpS, noJumpB_of_has b hb hc]
+  | .forS x it ex b, hb, hc => by
       simp only [hasBrkS] at hb
       simp only [hasContS] at hc
-      simp only [inS0S] at hs
-      obtain ⟨b', hb'⟩ := annotB_total b (fun p => a (0 :: p)) 0 hb hc hs
-      exact ⟨.forS (a []) x it ex b', by simp only [Func.annotS, hb']⟩
-theorem annotB_total : ∀ (b : List Stmt) (A : Func.Ann) (k : Nat), hasBrkB b = false → hasContB b = false →
-    inS0B b = true → ∃ q, Func.annotB A k b = some q
-  | [], A, k, _, _, _ => ⟨[], rfl⟩
-  | s :: rest, A, k, hb, hc, hs => by
+      simp [Func.noJumpS, noJumpB_of_has b hb hc]
+  | .withS t b, hb, hc => by
+      simp only [hasBrkS] at hb
+      simp only [hasContS] at hc
+      simp [Func.noJumpS, noJumpB_of_has b hb hc]
+  | .tryS b hs f, hb, hc => by
+      simp only [hasBrkS, Bool.or_eq_false_iff] at hb
+      simp only [hasContS, Bool.or_eq_false_iff] at hc
+      simp [Func.noJumpS, noJumpB_of_has b hb.1.1 hc.1.1, noJumpH_of_has hs hb.1.2 hc.1.2,
+        noJumpB_of_has f hb.2 hc.2]
+theorem noJumpB_of_has : ∀ (b : List Stmt), hasBrkB b = false → hasContB b = false → Func.noJumpB b = true
+  | [], _, _ => by simp [Func.noJumpB]
+  | s :: rest, hb, hc => by
       simp only [hasBrkB, Bool.or_eq_false_iff] at hb
       simp only [hasContB, Bool.or_eq_false_iff] at hc
-      simp only [inS0B, Bool.and_eq_true] at hs
-      obtain ⟨s', hs'⟩ := annotS_total s (fun p => A (k :: p)) hb.1 hc.1 hs.1
-      obtain ⟨r', hr'⟩ := annotB_total rest A (k + 1) hb.2 hc.2 hs.2
-      exact ⟨s' :: r', by simp only [Func.annotB, hs', hr']⟩
+      simp [Func.noJumpB, noJumpS_of_has s hb.1 hc.1, noJumpB_of_has rest hb.2 hc.2]
+theorem noJumpH_of_has : ∀ (hs : List (Nat × List Stmt)), hasBrkH hs = false → hasContH hs = false →
+    Func.noJumpH hs = true
+  | [], _, _ => by simp [Func.noJumpH]
+  | (t, b) :: hs, hb, hc => by
+      simp only [hasBrkH, Bool.or_eq_false_iff] at hb
+      simp only [hasContH, Bool.or_eq_false_iff] at hc
+      simp [Func.noJumpH, noJumpB_of_has b hb.1 hc.1, noJumpH_of_has hs hb.2 hc.2]
 end
+
+/-- The composed output is accepted by `Func.annotB` under every annotation — for EVERY source. -/
+theorem jumpPasses_annotatable (genB genC : Gen) (dr rv : Name) (body : Block) (ann : Func.Ann) :
+    ∃ q, Func.annotB ann 0 (jumpPasses genB genC dr rv body) = some q :=
+  Func.annotB_total_of_noJump _ ann (noJumpB_of_has _ (jumpPasses_noBrk body) (jumpPasses_noCont body))
 
 end Malt.Sem.Jumps
